@@ -626,19 +626,19 @@ type c18Finding struct {
 
 // c18Stats are vacuity observations of one judged round.
 type c18Stats struct {
-	calls, okCalls             int
-	byTier                     [2]int
-	estimateBinding            bool // a source node ended the round with its estimate back under the threshold after >= 1 eviction
-	estimateStillOverAtCall2   bool // a second eviction from the same node was justified by a still-over estimate
-	headroomBinding            bool // the round ended with the pool of a tier used up after >= 1 eviction
-	premNoOver, premNoUnder    bool
-	premAllUnder               bool
-	overButNoTarget            bool // some node over, nobody underused
-	rejectedSkipped            bool // a rejected pod sat on a node another pod was evicted from
-	numNodesGate               bool // over + target existed, but the count of underused nodes <= NumberOfNodes
-	anomalyHeldBack            bool // node over, target exists, but fewer than k consecutive rounds: no eviction seen
-	anomalyReleased            bool // eviction from a node with >= k consecutive rounds
-	numNodesQuirk              bool // gate passed although the count of nodes under the *node-level* low thresholds <= NumberOfNodes
+	calls, okCalls              int
+	byTier                      [2]int
+	estimateBinding             bool // a source node ended the round with its estimate back under the threshold after >= 1 eviction
+	estimateStillOverAtCall2    bool // a second eviction from the same node was justified by a still-over estimate
+	headroomBinding             bool // the round ended with the pool of a tier used up after >= 1 eviction
+	premNoOver, premNoUnder     bool
+	premAllUnder                bool
+	overButNoTarget             bool // some node over, nobody underused
+	rejectedSkipped             bool // a rejected pod sat on a node another pod was evicted from
+	numNodesGate                bool // over + target existed, but the count of underused nodes <= NumberOfNodes
+	anomalyHeldBack             bool // node over, target exists, but fewer than k consecutive rounds: no eviction seen
+	anomalyReleased             bool // eviction from a node with >= k consecutive rounds
+	numNodesQuirk               bool // gate passed although the count of nodes under the *node-level* low thresholds <= NumberOfNodes
 	failedCall, noMetricEvicted bool
 }
 
